@@ -248,6 +248,28 @@ match churn 64 Nil with
             if r.is_err() { std::process::exit(8); }
         }
     }
+    if which == "detvar" {
+        // C16: the same ill-typed / polymorphic program in a fresh VM and in a VM that compiled unrelated code before
+        let progs = [
+            ("unbound-var", r#"let f x = x in f 1 2"#),
+            ("infinite", r#"let f x = f in f"#),
+            ("poly", r#"let id x = x in { id, k = \x y -> x }"#),
+            ("mismatch", r#"let f x y = x in (f 1) #Int+ 1"#),
+            ("record", r#"let f r = r.a in f { b = 1 }"#),
+        ];
+        let mut bad = false;
+        for (name, src) in progs.iter() {
+            let fresh = new_vm();
+            let a = fresh.typecheck_str(name, src, None).map(|x| x.1.to_string()).map_err(|e| e.to_string());
+            let used = new_vm();
+            let _ = used.run_expr::<OpaqueValue<RootedThread, Hole>>("warm1", "let l = import! std.list in let m = import! std.map in l.of [1,2,3]");
+            let _ = used.typecheck_str("warm2", "let f x y z = { x, y, z } in f", None);
+            let b = used.typecheck_str(name, src, None).map(|x| x.1.to_string()).map_err(|e| e.to_string());
+            println!("{}: {}", name, if a == b { "same".to_string() } else { format!("DIFFERENT\n--- fresh\n{:?}\n--- used\n{:?}", a, b) });
+            if a != b { bad = true; }
+        }
+        if bad { std::process::exit(9); }
+    }
     if which == "lazy" {
         let src = r#"let { lazy } = import! std.lazy in lazy (\_ -> error "fail")"#;
         let (l, _) = vm.run_expr::<OpaqueValue<RootedThread, Hole>>("t", src).unwrap(); let l: L = unsafe { std::mem::transmute(l) };
